@@ -20,8 +20,8 @@ SOLVER_FUNCS = ("steady_state_transport_solver", "ivp_solver")
 class Sym:
     """A private, symbolic instance of the repository's solver stack."""
 
-    def __init__(self, run=None, mutate=None, record=True, patch=None):
-        self.sp = af.Space()
+    def __init__(self, run=None, mutate=None, record=True, patch=None, space=None):
+        self.sp = space if space is not None else af.Space()
         sp = self.sp
         self.npshim = af.NPShim(sp)
         self.numba = stubs.numba_stub()
